@@ -400,7 +400,7 @@ def split_top_level(text: str) -> list[str]:
     return out
 
 
-CALLEES = ["f", "obj.m", "g(1)", "tbl[0]", "a.b.c", "f(x)(y)"]
+CALLEES = ["f", "obj.m", "g(1)", "tbl[0]", "a.b.c", "f(x)(y)", "match", "case", "type", "_", "match.x", "print"]
 MACRO_CONTEXTS = ["{M}\n", "x = {M}\n", "x = {M} + 1\n", "r = g({M}, 2)\n", "v = [{M}][0]\n", "w = {M}.attr\n", "{M}; y = 2\n", "if {M}:\n    z = 3\n", "q = ({M},\n     4)\n", "for i in {M}: pass\n", "x = {M}\ny = [1,\n 2]\nz = 5\n"]
 
 
@@ -422,17 +422,18 @@ def call_macro_case(rnd):
     return {"macro": text, "callee": callee, "args": args, "ctx": ctx}
 
 
-PROC_REST_ATOMS = ["a", "-l", "--x=1", "'q r'", '"s,t"', "1", "b/c", "&&", "|", ">", "if", "import", "$X", "*.py", ";", "x=y", "é", "..", "#h"]
+PROC_REST_ATOMS = ["a", "-l", "--x=1", "'q r'", '"s,t"', "1", "b/c", "&&", "|", ">", "if", "import", "$X", "*.py", ";", "x=y", "é", "..", "h",
+                   "{a}", "${x}", 'f"a{b}"', "→", "`a*`", "ﬁx", "# c\n", "{'k': [1, (2)]}", "@(f!(a b, c))", "x?", "2>&1", "\"(\"", "p'/t'", "$(ls)"]
 
 
 def proc_rest(rnd, d=0) -> str:
     parts = []
     for _ in range(rnd.randint(0, 5)):
         r = rnd.random()
-        if r < 0.8 or d >= 1:
-            parts.append(rnd.choice(PROC_REST_ATOMS if d or True else PROC_REST_ATOMS))
+        if r < 0.8 or d >= 3:
+            parts.append(rnd.choice(PROC_REST_ATOMS))
         else:
-            o, c = rnd.choice([("(", ")"), ("[", "]")])
+            o, c = rnd.choice([("(", ")"), ("[", "]"), ("{", "}")])
             parts.append(o + proc_rest(rnd, d + 1) + c)
     out = ""
     for p in parts:
@@ -445,7 +446,7 @@ def proc_macro_case(rnd):
     o, c, fn = rnd.choice(SUBPROC_FORMS)
     pre = [rnd.choice(["sudo", "env", "-n", "time"]) for _ in range(rnd.choice([0, 0, 1, 2]))]
     cmd = rnd.choice(["echo", "bash", "git", "python3", "ls"])
-    rest = proc_rest(rnd).replace("#h", "h")
+    rest = proc_rest(rnd)
     lead = rnd.choice([" ", " ", "  ", "\t", "", "\n    ", " \n"])
     if rest[:1] in ("(", "["):
         lead = lead or " "  # 'cmd!(' / 'cmd![' would be another construct
@@ -515,7 +516,8 @@ def with_macro_case(rnd):
         unit = rnd.choice(["    ", "  ", "\t", "      "])
         ind = base + unit if "\t" not in base + unit or (base + unit).strip(" ") == (base + unit) or True else base + "    "
         block_lines = with_block(rnd, ind)
-        text = outer + head + "\n" + "\n".join(block_lines) + "\n"
+        # (blanks or a comment may follow the colon, as after any block header)
+        text = outer + head + rnd.choice(["", "", "", "", " ", "  # note", "\t", " #c: d"]) + "\n" + "\n".join(block_lines) + "\n"
         body = None
     blanks = rnd.choice([0, 0, 1, 2, 3])
     follow = rnd.choice(["", "after = 1\n", "print(x)\n", "if t:\n    u = 2\n", "$Y = 3\n"])
